@@ -34,10 +34,10 @@ TInit == /\ l = 1 /\ st = "skip"
          /\ src = [p \in Pkgs |-> "noinj"] /\ disk = [s \in Slot |-> "absent"]
          /\ hist = <<>> /\ last = [cmd |-> "none", args |-> [pkgs |-> {}], exit |-> 0]
 
-\* a new walk starts: fresh sandbox with the given sources, no output files
+\* a new walk starts: fresh sandbox with the given sources and the output files as set up (observed)
 TReset == /\ More /\ Ev.cmd = "reset"
           /\ src' = [p \in Pkgs |-> Ev.src[p]]
-          /\ disk' = [s \in Slot |-> "absent"]
+          /\ disk' = ObsDisk(Ev)
           /\ last' = [cmd |-> "none", args |-> [pkgs |-> {}], exit |-> 0]
           /\ hist' = <<>> /\ st' = "ok" /\ l' = l + 1
 
